@@ -3,9 +3,7 @@ package main
 import (
 	"errors"
 	"fmt"
-	"io"
 	"net"
-	"os"
 	"regexp"
 	"strconv"
 	"strings"
@@ -14,7 +12,6 @@ import (
 	"time"
 
 	"github.com/pinealctx/neptune/stcp"
-
 )
 
 // ---------------------------------------------------------------- fault-injecting connection (server side of a net.Pipe)
@@ -286,9 +283,10 @@ func (h *handler) OnExit(s *stcp.Session) {
 // ---------------------------------------------------------------- world
 
 const (
-	longTimeout  = time.Hour
-	shortTimeout = 60 * time.Millisecond
-	ceiling      = 5 * time.Second
+	longTimeout = time.Hour
+	shortRead   = 60 * time.Millisecond  // mode rt: nothing races with it, every observation waits for the sessions to end
+	shortWrite  = 250 * time.Millisecond // mode wt: a write to a reading peer must finish well within it, even on a loaded machine
+	ceiling     = 5 * time.Second
 )
 
 type world struct {
@@ -319,9 +317,9 @@ func newWorld(max int, mode string) *world {
 	w := &world{mode: mode, max: max, rt: longTimeout, wt: longTimeout, h: &handler{byID: map[string]*cstate{}}}
 	switch mode {
 	case "rt":
-		w.rt = shortTimeout
+		w.rt = shortRead
 	case "wt":
-		w.wt = shortTimeout
+		w.wt = shortWrite
 	}
 	w.mgr = stcp.NewSessionMgr(w.h, stcp.WithReadTimeout(w.rt), stcp.WithWriteTimeout(w.wt))
 	w.srv = stcp.NewTCPSrv("c16", w.mgr)
@@ -723,7 +721,7 @@ func (w *world) observe(final bool) string {
 		} else if cs.peerClosedBy && ex > 0 {
 			closes = 1 // tcp: after the client closed its end the server-side Close is not visible to it
 		}
-		fmt.Fprintf(&sb, " | %d:x%d,c%d,l%d,d=%s,rd=%d", k, ex, closes, l, hexOf(buf), rd)
+		fmt.Fprintf(&sb, " / %d:x%d,c%d,l%d,d=%s,rd=%d", k, ex, closes, l, hexOf(buf), rd)
 		started++
 		if ex > 0 {
 			over++
@@ -778,7 +776,7 @@ func (w *world) monitorSession(k int, cs *cstate, exits, closes, loops int, got 
 		why = append(why, "write error/timeout")
 	}
 	if w.mode == "wt" && holding && pendingBytes {
-		why = append(why, "write timeout (real, 60ms)")
+		why = append(why, "write timeout (real, 250ms)")
 	}
 	if len(why) > 0 {
 		cause := strings.Join(why, "+")
@@ -872,6 +870,3 @@ func (w *world) destroy() {
 		time.Sleep(200 * time.Microsecond)
 	}
 }
-
-var _ = io.EOF
-var _ = os.Stderr
